@@ -22,26 +22,43 @@ Siblings(gg) == \E r1, r2 \in 1 .. Len(gg) : r1 # r2 /\ gg[r1].parent = gg[r2].p
 
 \* vers: a history of the relation with identical member lists.  vers[v][i] says whether member way i is reversed
 \* (a new way version with the nodes in opposite order) at relation version v; all versions are annotated in one call.
-CaseRec(gg, ms, grid, near) ==
+\* tiny: every ring without holes is 1..5 coordinate steps (1e-7 degree) across, far from lon = lat = 0 (anchors in
+\* all four sign quadrants); outers with holes are just large enough to hold tiny holes.
+TinyOK(gg) == /\ \A r \in 1 .. Len(gg) : gg[r].n <= 5
+              /\ \A X \in Outers(gg) : Cardinality(Holes(gg, X)) <= 2
+\* concave: outers with a hole are chevrons (one reflex vertex, a deep notch), their hole is a chevron following the
+\* outer so that the middle of the hole's bounding box lies in the notch, outside the hole's own outer; the first
+\* outer without holes sits in that notch, around that point.
+ConcaveOK(gg) == /\ \A r \in 1 .. Len(gg) : gg[r].n <= 5
+                 /\ \A X \in Outers(gg) : Cardinality(Holes(gg, X)) <= 1
+                 /\ \E h \in 1 .. Len(gg) : gg[h].parent # 0
+                 /\ \A h \in 1 .. Len(gg) : gg[h].parent # 0 => gg[h].n >= 4 /\ gg[gg[h].parent].n >= 4
+
+\* place: which placement the renderer uses: "" (seeded magnitude profile), "grid", "near", "tiny", "concave"
+CaseRec(gg, ms, place) ==
   [g |-> gg, members |-> ms, masks |-> MasksOf(ms), vers |-> MasksOf(ms),
    rtype |-> IF Idx(ms[Len(ms)].nodes[1]) % 2 = 1 THEN "multipolygon" ELSE "boundary",
-   norder |-> (Idx(ms[1].nodes[1]) + Len(ms)) % 3, grid |-> grid, near |-> near]
+   norder |-> (Idx(ms[1].nodes[1]) + Len(ms)) % 3, place |-> place]
 
 SimCase == LET n == Len(members)
-               gr == IF MultiOuterWithHole(g) THEN RandomElement(1 .. 3) # 3 ELSE RandomElement(BOOLEAN) IN
+               pl == IF MultiOuterWithHole(g) THEN RandomElement({"grid", "grid", "near", ""})
+                     ELSE IF Siblings(g) THEN RandomElement({"grid", "near", ""}) ELSE RandomElement({"grid", ""}) IN
   [g |-> g, members |-> members,
    masks |-> <<NoneMask(n), AllMask(n), RandomElement([1 .. n -> BOOLEAN])>>,
    vers |-> <<NoneMask(n), RandomElement([1 .. n -> BOOLEAN]), RandomElement([1 .. n -> BOOLEAN])>>,
-   rtype |-> RandomElement({"multipolygon", "boundary"}), norder |-> RandomElement({0, 1, 2}),
-   grid |-> gr, near |-> ~gr /\ Siblings(g) /\ RandomElement(BOOLEAN)]
+   rtype |-> RandomElement({"multipolygon", "boundary"}), norder |-> RandomElement({0, 1, 2}), place |-> pl]
 
 Complete == cutr > Len(g) /\ pool = {}
 Write(c) == CSVWrite("%1$s", <<ToJson(c)>>, IOEnv.OUT)
-\* a deterministic half of the cases
-Half == (Idx(members[Len(members)].nodes[1]) + Len(members[1].nodes) + Len(members)) % 2 = 0
+\* the placements are spread deterministically over the cases
+Pick == (Idx(members[Len(members)].nodes[1]) + Len(members[1].nodes) + Len(members)) % 4
+Tiny == IF TinyOK(g) THEN "tiny" ELSE ""
+Conc == IF ConcaveOK(g) THEN "concave" ELSE ""
 EmitFile == Complete =>
-   IF MultiOuterWithHole(g) THEN Write(CaseRec(g, members, TRUE, FALSE)) /\ Write(CaseRec(g, members, FALSE, Half))
-   ELSE IF Siblings(g) THEN Write(CaseRec(g, members, FALSE, Half))
-   ELSE Write(CaseRec(g, members, (Idx(members[Len(members)].nodes[2]) + Len(members[1].nodes)) % 4 = 0, FALSE))
+   IF MultiOuterWithHole(g)        \* two records: grid, and one of near / tiny / concave / profile
+   THEN Write(CaseRec(g, members, "grid"))
+        /\ Write(CaseRec(g, members, CASE Pick = 0 -> "near" [] Pick = 1 -> Tiny [] Pick = 2 -> Conc [] OTHER -> (IF ConcaveOK(g) THEN "concave" ELSE "")))
+   ELSE Write(CaseRec(g, members, CASE Pick = 0 -> "grid" [] Pick = 1 -> Tiny
+                                    [] Pick = 2 -> (IF Siblings(g) THEN "near" ELSE Conc) [] OTHER -> Conc))
 EmitSim  == Complete => Write(SimCase)
 =============================================================================
